@@ -456,6 +456,52 @@ def real_runs(run, tier, rng):
     run.count("real_runs", n)
 
 
+def second_run_probe(run, tier, rng):
+    """every reweighting step of two consecutive run() calls on ONE Sampler (the second run starts with a non-empty pool): the
+    weights handed on cover the whole pool, and the recorded beta / logZ / ESS are those of that temperature on that pool"""
+    from tempest import Sampler
+    from tempest.steps.reweight import Reweighter
+    from tempest.tools import effective_sample_size
+    problems = []
+    orig = Reweighter.run
+
+    def spy(self):
+        pool_before = sum(len(b) for b in self.state._history["logl"])
+        w = orig(self)
+        if pool_before == 0:
+            return w
+        beta = float(self.state.get_current("beta"))
+        logw, lz = self.state.compute_logw_and_logz(beta)
+        ww = np.exp(logw - np.max(logw))
+        ww /= ww.sum()
+        if len(w) != pool_before:
+            problems.append(f"iteration {self.state.get_current('iter')}: {len(w)} weights handed on for a pool of {pool_before} stored samples")
+        elif not np.allclose(w, ww, rtol=1e-9, atol=1e-15):
+            problems.append(f"iteration {self.state.get_current('iter')}: the weights handed on are not the pool's weights at the recorded beta={beta}")
+        if abs(float(self.state.get_current("logz")) - float(lz)) > 1e-9 * max(1.0, abs(float(lz))):
+            problems.append(f"iteration {self.state.get_current('iter')}: recorded logZ {float(self.state.get_current('logz'))!r} but the pool gives {float(lz)!r} at beta={beta}")
+        e = float(effective_sample_size(ww))
+        if abs(float(self.state.get_current("ess")) - e) > 1e-6 * max(1.0, e):
+            problems.append(f"iteration {self.state.get_current('iter')}: recorded ESS {float(self.state.get_current('ess'))!r} but the pool has {e!r} at beta={beta}")
+        return w
+    Reweighter.run = spy
+    try:
+        for vv in (None, 0.5):
+            s = Sampler(prior_transform=lambda u: 10 * u - 5, log_likelihood=lambda x: -0.5 * float(np.sum(x ** 2)), n_dim=2, n_particles=16,
+                        volume_variation=vv, clustering=False, random_state=8)
+            del problems[:]
+            s.run(n_total=32, progress=False)
+            s.run(n_total=96, progress=False)       # the same object, asking for more
+            run.case(key=("second-run", str(vv)), nontrivial=True)
+            if problems:
+                run.fail("weights-at-other-beta", f"two consecutive run() calls on one Sampler: {problems[0]} ({len(problems)} such steps)", volume_variation=vv,
+                         random_state=8)
+    except Exception as e:
+        run.fail("run-raises", f"second run() raised {type(e).__name__}: {e}")
+    finally:
+        Reweighter.run = orig
+
+
 def main(tier, seed):
     run = Run(PID, tier, seed)
     run.rule = ("single reweighting steps on synthetic pools (T in 1..8 batches, Gaussian / plateau / spike likelihood "
@@ -481,6 +527,7 @@ def main(tier, seed):
         sweep(run, tier, rng)
         reweighter_reuse_probe(run, tier, rng)
         real_runs(run, tier, rng)
+        second_run_probe(run, tier, rng)
     except Exception:
         import traceback
         run.broken.append(("harness-exception", traceback.format_exc()[-1500:]))
